@@ -1030,7 +1030,31 @@ impl Check for C19 {
             }
             return;
         }
-        let base = gen_c19_conv(rng);
+        let base = if job % 5 == 4 {
+            // the all-features conversation as the base (bounded so that the enumeration stays
+            // small): faults then also land in recovering programs, many-packet replies, ...
+            let mut b = loop {
+                let b = super::sink::gen_sink(rng, tier, job);
+                let big = b.cmds.len() > 10
+                    || b.cmds.iter().any(|c| match &c.kind {
+                        CmdKind::Query(t) | CmdKind::Prepare(t) | CmdKind::InitDb(t) => t.len() > 3000,
+                        CmdKind::LongData { data, .. } => data.len() > 3000,
+                        _ => false,
+                    })
+                    || b.cmds.iter().any(|c| matches!(&c.act, Act::Program(p) if p.units.iter().any(|u| matches!(u, Unit::Rows(r) if r.rows.len() > 12))));
+                if !big {
+                    break b;
+                }
+            };
+            b.faults.clear();
+            b.writes.eintr_at.clear();
+            if matches!(b.reads.tail, Tail::Fixed(1)) {
+                b.reads.tail = Tail::Fixed(9);
+            }
+            b
+        } else {
+            gen_c19_conv(rng)
+        };
         let (out, _) = ctx.eval_out(&base);
         let n_ops = out.w.op;
         let n_bytes = out.w.cbytes.len() as u64;
@@ -1046,11 +1070,18 @@ impl Check for C19 {
             }
         }
         drop(out);
+        // conversations with thousands of operations (many-row replies in the all-features
+        // base) are enumerated with a stride; everything else completely
+        let op_stride = (n_ops / 1500).max(1);
+        let byte_stride = (n_bytes / 3000).max(1);
+        if op_stride > 1 || byte_stride > 1 {
+            ctx.stats.bump("enum.conversations_enumerated_with_stride", 1);
+        }
         ctx.stats.bump("enum.conversations", 1);
         ctx.stats.bump("enum.fault_points_ops", n_ops);
         ctx.stats.bump("enum.fault_points_bytes", n_bytes + 1);
         let mut p = base.clone();
-        for k in 0..n_ops {
+        for k in (0..n_ops).step_by(op_stride as usize) {
             let kind = ERR_KINDS[(k as usize) % ERR_KINDS.len()];
             p.faults = vec![Fault {
                 at: FaultAt::Op(k),
@@ -1079,7 +1110,7 @@ impl Check for C19 {
             // end of stream after every byte of the outer (wire) stream
             ctx.stats.bump("enum.tls_conversations", 1);
             ctx.stats.bump("enum.fault_points_tls_bytes", tls_len);
-            for k in 0..tls_len {
+            for k in (0..tls_len).step_by((tls_len / 4000).max(1) as usize) {
                 p.faults = vec![Fault {
                     at: FaultAt::ClientByte(k),
                     kind: FaultKind::Eof,
@@ -1089,7 +1120,7 @@ impl Check for C19 {
             }
             return;
         }
-        for k in 0..=n_bytes {
+        for k in (0..=n_bytes).step_by(byte_stride as usize) {
             p.faults = vec![Fault {
                 at: FaultAt::ClientByte(k),
                 kind: FaultKind::Eof,
@@ -1401,6 +1432,7 @@ fn gen_c20(r: &mut Rng, job: u64) -> Plan {
             o.random_seq = r.coin();
             let cmds = gen_conv(r, &o);
             let mut p = finish_plan(r, cmds);
+            p.faults.clear();
             p.handshake = gen_handshake(r);
             let (hdrs, len) = header_offsets(&p);
             let nm = 1 + r.below(3);
